@@ -296,7 +296,12 @@ def ev(S, F, x, asg, tabs=None):
     raise Unknown(sym.fmt(n(x))[:80])
 
 
-def run(S, F, paths, asg, tabs=None):
+def select(S, F, paths, asg, tabs=None):
+    """the unique enumerated path whose conditions all hold under asg (Panics if it diverges)"""
+    return run(S, F, paths, asg, tabs, want_path=True)
+
+
+def run(S, F, paths, asg, tabs=None, want_path=False):
     """Value returned by the function whose enumerated paths are `paths` under assignment asg: the unique path whose
     conditions all hold is selected; a feasible diverging path raises Panics."""
     hits = []
@@ -326,4 +331,6 @@ def run(S, F, paths, asg, tabs=None):
     p = hits[0]
     if p.end != "return":
         raise Panics("path ends in %s" % p.end)
+    if want_path:
+        return p
     return ev(S, F, p.ret, asg, tabs)
